@@ -101,6 +101,8 @@ func (s *Store[H]) deleteSequential(
 	defer func() {
 		if derr := done(); derr != nil {
 			err = errors.Join(err, fmt.Errorf("committing batch: %w", derr))
+			// nothing of the batch got applied, so there is no progress to report
+			highest = from
 		}
 	}()
 	ctx, doneTx := s.withReadTransaction(ctx)
@@ -165,16 +167,25 @@ func (s *Store[H]) deleteParallel(ctx context.Context, from, to uint64) (uint64,
 			}
 		}()
 
+		// first is the lowest height this worker has processed (jobs come in ascending order)
+		var first uint64
 		workerCtx, done := s.withWriteBatch(ctx)
 		defer func() {
 			if err := done(); err != nil {
 				last.err = errors.Join(last.err, fmt.Errorf("committing delete batch: %w", err))
+				// nothing of the worker's batch got applied: its lowest height is where the deletion failed
+				if first != 0 {
+					last.height = first
+				}
 			}
 		}()
 		workerCtx, doneTx := s.withReadTransaction(workerCtx)
 		defer doneTx()
 
 		for height := range jobCh {
+			if first == 0 {
+				first = height
+			}
 			last.height = height
 			last.err = s.deleteSingle(workerCtx, height, onDelete)
 			if errors.Is(last.err, errMissingHeader) {
